@@ -94,3 +94,15 @@ Example C04L_example_args :
   skip_wrapper_args $"command" [$"rm"; $"-v"; $"build"] = [$"rm"; $"-v"; $"build"] /\
   skip_wrapper_args $"nice" [$"rm"; $"-n"; $"x"] = [$"rm"; $"-n"; $"x"].
 Proof. vm_compute. repeat split; reflexivity. Qed.
+
+(* the unwrapping follows the wrapper's option grammar also for abbreviated long options and for a short option with
+   its argument attached: the command that is analysed is the command the wrapper runs *)
+Example C04_wrapper_abbreviations :
+  skip_wrapper_args $"timeout" [$"--k"; $"1"; $"5"; $"bash"; $"x"; $"-h"] = [$"bash"; $"x"; $"-h"] /\
+  skip_wrapper_args $"timeout" [$"--sig"; $"KILL"; $"5"; $"ls"] = [$"ls"] /\
+  skip_wrapper_args $"timeout" [$"--kill-after=1"; $"5"; $"ls"] = [$"ls"] /\
+  skip_wrapper_args $"timeout" [$"-vk"; $"1"; $"5"; $"ls"] = [$"ls"] /\
+  skip_wrapper_args $"timeout" [$"-k1"; $"5"; $"ls"] = [$"ls"] /\
+  skip_wrapper_args $"timeout" [$"--foreground"; $"5"; $"ls"] = [$"ls"] /\
+  skip_wrapper_args $"nice" [$"--a"; $"5"; $"bash"; $"x"; $"-h"] = [$"bash"; $"x"; $"-h"].
+Proof. vm_compute. repeat split; reflexivity. Qed.
